@@ -4,6 +4,8 @@ package interp
 
 import (
 	"fmt"
+	"os"
+	"os/exec"
 	"go/types"
 	"runtime"
 	"sort"
@@ -49,6 +51,7 @@ type Config struct {
 	Stubs          map[string]*ssa.Function // ssa function String() -> replacement
 	InitPkgs       []string                 // packages whose own initialiser statements are executed first
 	Params         map[string]int64         // ndParam values (bounds chosen by the tier)
+	DumpDir        string                   // where queries answered unknown are written
 	Trace          bool
 	Deadline       time.Time
 }
@@ -94,6 +97,8 @@ type Result struct {
 	Queries        int64
 	SolverNanos    int64
 	Steps          int64
+	FreshRetries   int64 // queries re-posed to fresh solver processes after an incremental unknown
+	FreshDecided   int64
 	MapRangesFixed int64 // range over a map with >=2 entries executed in insertion order only
 	MapRangesPerm  int64 // … executed under every order
 	Violations     map[string][]Violation
@@ -117,6 +122,7 @@ type explorer struct {
 	stop     bool
 	res      *Result
 	pathsRun int64
+	dumpSeq  int64
 	shared   *sharedInfo
 }
 
@@ -145,6 +151,7 @@ type path struct {
 	expectPan  bool
 	mapPerm    bool
 	defs       map[string]string
+	script     []string
 }
 
 func (p *path) fresh(prefix string) string {
@@ -157,11 +164,56 @@ func (p *path) assert(t string) {
 		return
 	}
 	p.pc = append(p.pc, t)
-	p.sv.send("(assert " + t + ")")
+	p.emit("(assert " + t + ")")
 }
 
 func (p *path) declare(name, sort string) {
-	p.sv.send("(declare-const " + name + " " + sort + ")")
+	p.emit("(declare-const " + name + " " + sort + ")")
+}
+
+// emit sends a path-level command (declaration, definition, assertion) and
+// records it so that the path condition can be re-posed to a fresh solver.
+func (p *path) emit(line string) {
+	p.script = append(p.script, line)
+	p.sv.send(line)
+}
+
+// fallbackSolvers are tried one-shot, in order, when the incremental session
+// answers unknown: a fresh process of the same solver, then the two others.
+var fallbackSolvers = []SolverSpec{
+	{"z3-4.8.12", []string{"z3", "-in", "-T:60"}},
+	{"z3-5.1.0", []string{"z3-new", "-in", "-T:60"}},
+	{"cvc5-1.0", []string{"cvc5", "--lang=smt2", "--strings-exp", "--tlimit=60000"}},
+}
+
+// solveFresh decides pc ∧ extra with fresh solver processes.
+func (p *path) solveFresh(extra string) string {
+	var b strings.Builder
+	b.WriteString("(set-logic ALL)\n")
+	for _, l := range p.script {
+		b.WriteString(l)
+		b.WriteByte('\n')
+	}
+	if extra != "" {
+		b.WriteString("(assert " + extra + ")\n")
+	}
+	b.WriteString("(check-sat)\n")
+	atomic.AddInt64(&p.ex.res.FreshRetries, 1)
+	for _, spec := range fallbackSolvers {
+		cmd := exec.Command(spec.Argv[0], spec.Argv[1:]...)
+		cmd.Stdin = strings.NewReader(b.String())
+		out, _ := cmd.CombinedOutput()
+		ans := strings.TrimSpace(string(out))
+		if ans == "sat" || ans == "unsat" {
+			atomic.AddInt64(&p.ex.res.FreshDecided, 1)
+			return ans
+		}
+	}
+	if p.ex.cfg.DumpDir != "" {
+		n := atomic.AddInt64(&p.ex.dumpSeq, 1)
+		os.WriteFile(fmt.Sprintf("%s/fresh-unknown-%d.smt2", p.ex.cfg.DumpDir, n), []byte(b.String()), 0o644)
+	}
+	return "unknown"
 }
 
 // check decides pc ∧ g.
@@ -170,6 +222,15 @@ func (p *path) check(g string) string {
 	p.sv.send("(assert " + g + ")")
 	r := p.sv.checkSat()
 	p.sv.send("(pop 1)")
+	if r == "unknown" {
+		r = p.solveFresh(g)
+	}
+	if r == "unknown" && p.sv.log != nil {
+		n := atomic.AddInt64(&p.ex.dumpSeq, 1)
+		if n <= 20 {
+			os.WriteFile(fmt.Sprintf("%s/unknown-%d.smt2", p.ex.cfg.DumpDir, n), []byte(p.sv.log.String()), 0o644)
+		}
+	}
 	return r
 }
 
@@ -410,9 +471,10 @@ func Explore(cfg Config) *Result {
 func (ex *explorer) runPath(sv *solver, prefix []int32, funcs, intr, stubs map[string]int64) {
 	cfg := ex.cfg
 	p := &path{ex: ex, sv: sv, prefix: prefix}
-	var log strings.Builder
 	sv.log = nil
-	_ = log
+	if cfg.DumpDir != "" {
+		sv.log = &strings.Builder{}
+	}
 	sv.send("(push 1)")
 	defer sv.send("(pop 1)")
 	i := &interpreter{
@@ -485,7 +547,7 @@ func (ex *explorer) runPath(sv *solver, prefix []int32, funcs, intr, stubs map[s
 		ex.addViolation(v)
 	}
 	n := atomic.AddInt64(&ex.res.Completed, 1)
-	if cfg.SampleEvery > 0 && (n%int64(cfg.SampleEvery) == 1 || cfg.SampleEvery == 1) {
+	if cfg.SampleEvery > 0 && len(p.assertFail) == 0 && (n%int64(cfg.SampleEvery) == 1 || cfg.SampleEvery == 1) {
 		ex.mu.Lock()
 		room := len(ex.res.Samples) < cfg.MaxSamples
 		ex.mu.Unlock()
